@@ -4,6 +4,7 @@
 -/
 import Rpki.Props.C02
 import Rpki.Model.SigMsg
+import Rpki.Proofs.CrlDerLemmas
 namespace Rpki.Props.C10
 set_option autoImplicit false
 open Rpki.SigObj Rpki.SigMsg Rpki.Der
@@ -137,5 +138,44 @@ theorem created_validates_iff (digest : Bytes → Bytes) (data : Bytes) (v : X50
   · rintro ⟨hi, h1, h2⟩
     subst hi
     simp [h1, h2]
+
+/-! ### the same on octets (strict decoding)
+
+`Model/SigMsgDer.lean` reads a whole protocol message from its octets — ContentInfo, SignedData, the
+identity certificate, the CRL with the module's own entry reader, the signed attributes in the relaxed
+attribute mode (tied to `SignedMessage::decode` and `IdCert::decode` by the `smsgd` / `idcd` operations and
+by every C10 case, whose model verdict is computed from the octets).  Acceptance implies every condition of
+the statement for what was read; the inputs left outside are the three verdicts of the signature primitive
+and the octets the message signature was made over. -/
+section Octets
+open Rpki.SigMsgDer
+
+theorem accepted_message_octets (b : Bytes) (m : SigMsgD) (hd : decodeSigMsg b = some m)
+    (sigKeyOk eeSigOk crlSigOk : Bool) (sigInput peer : Bytes) (when : Int)
+    (h : SigMsg.validateAt Sha.sha256N (toMsg m sigKeyOk sigInput eeSigOk crlSigOk) peer when = true) :
+    Sha.sha256N m.content = m.messageDigest ∧ sigKeyOk = true ∧ sigInput = tlv 0x31 m.attrs ∧
+    m.sid = m.cert.ski ∧ m.cert.ski = Sha.sha1N m.cert.keyBits ∧ eeSigOk = true ∧
+    m.cert.validity.nb ≤ when ∧ when ≤ m.cert.validity.na ∧ (∀ a, m.cert.aki = some a → a = peer) ∧
+    m.cert.basicCa ≠ some true ∧
+    m.crl.innerParam = m.crl.outerParam ∧ crlSigOk = true ∧
+    CertDer.civilToEpoch m.crl.thisUpdate ≤ when ∧ when ≤ CertDer.civilToEpoch m.crl.nextUpdate ∧
+    (∀ a, m.crl.aki = some a → a = peer) ∧
+    (∀ l, msgRevokedSerials m.crl.revoked = some l → m.cert.serial ∉ l) := by
+  obtain ⟨st, hp⟩ := decodeSigMsg_spec b m hd
+  obtain ⟨_, ⟨md, st', h1, h2⟩, h3, h4, h5, h6, h7, h8⟩ := (validateAt_iff _ _ peer when).1 h
+  have hp' : parseAttrs false m.attrs = some (Consts.oidProtocolContentType, md, st') := h1
+  rw [hp] at hp'
+  simp only [Option.some.injEq, Prod.mk.injEq] at hp'
+  obtain ⟨e1, e2, e3, e4, e5⟩ := (eeValid_iff _ peer when).1 h6
+  obtain ⟨c1, c2, c3, c4, c5⟩ := (crlValid_iff _ peer when).1 h7
+  refine ⟨by rw [hp'.2.1]; exact h2, h4, h5, h3, e1, e5, e2.1, e2.2, e3, e4, ?_, c2, c3, c4, c5, ?_⟩
+  · exact eq_of_beq c1
+  · intro l hl
+    have : (toMsg m sigKeyOk sigInput eeSigOk crlSigOk).crl.revoked = l := by
+      show (msgRevokedSerials m.crl.revoked).getD [] = l
+      rw [hl]; rfl
+    rw [← this]; exact h8
+
+end Octets
 
 end Rpki.Props.C10
